@@ -8,7 +8,7 @@ T  LineTrace.tla judges the property on the real segments (even degree, degree 2
    corners, no zero-length segment, end points on straddling lattice edges, inside the box).
 """
 import vlib
-from worldcheck import run_worlds
+from worldcheck import run_worlds, run_scenes
 
 LEVEL = "model_checking"
 
@@ -44,3 +44,5 @@ def run(chk, replay):
         frac = {2: 1.0, 3: 1.0, 4: 0.25}
     run_worlds(chk, replay, "MarchSquares", "LineTrace", "c08-replay", ("msu", "msq"), plans, frac,
                lambda d, b, l, n, sd: CFG % (d[0], d[1], b, l, n, sd), "ns")
+    if not replay and not chk.violations:
+        run_scenes(chk, "c08-scenes")
